@@ -188,7 +188,9 @@ def wrapping(run, repo, thorough):
     run.fn('pmutt.io.cantera.obj_to_cti')
     n = 0
     widths_sets = [[], [5], [30], [10, 10, 10], [30, 30, 30, 30], [1] * 40, [29, 1, 29, 1, 29, 1, 29],
-                   [12, 7, 3, 25, 30, 8, 8, 8, 14, 2, 2, 2, 19, 30, 30, 1, 5], [75, 3, 80, 2], [95]]
+                   [12, 7, 3, 25, 30, 8, 8, 8, 14, 2, 2, 2, 19, 30, 30, 1, 5], [75, 3, 80, 2], [95],
+                   # values whose joined length lies between the first-line width and the full width
+                   [20, 20, 20], [15, 15, 15], [25, 25], [10] * 5, [7] * 9]
     limits = [(80, 80), (30, 30), (50, 80), (100, 100), (40, 60)]
     if thorough:
         widths_sets += [[w] * k for w in (7, 15, 26) for k in (3, 9, 20)]
